@@ -19,8 +19,9 @@
   NOT modelled (the model answers `unmodelled`, the theorems say nothing there, the harness covers them with
   the generic corruptions and the model-independent oracle): the value decoders of PMSI (22), TUNNEL_ENCAP
   (23), AIGP (26), BGP-LS (29), PREFIX_SID (40); MP_REACH for families outside AFI 1/2 × SAFI 1,2,4,128 and
-  with RFC 8950 next hops negotiated; the content of the merged AS_PATH (`merge_attributes`: C02/F16/F20),
-  which is reported as the marker `merged`.
+  with RFC 8950 next hops negotiated. The merged AS_PATH keeps the two values it is made of (`Kept.val`,
+  `Kept.as4`); `mergeExa` transcribes `merge_attributes` (72add9c) on segments and `Props/C02Exa.lean` proves
+  it equal to the reference `merge6793`; the driver prints the marker `m` for it (its bytes are C02's).
 
   History: the first version of this model reproduced five defects of the tree as found (F5 marker ignored,
   F6 overrun accepted, C08a NEXT_HOP of 16 bytes, C08c flag conflict without class, and C08b); four were
@@ -287,7 +288,8 @@ structure Kept where
   code   : Nat
   flag   : Nat
   val    : Bytes
-  merged : Bool
+  merged : Bool        -- code 2: rebuilt by `merge_attributes`; code 7: value taken over from AS4_AGGREGATOR (4-octet packing)
+  as4    : Bytes := []  -- the AS4_PATH value merged into a merged AS_PATH
 deriving DecidableEq, Repr
 
 structure LoopSt where
@@ -329,6 +331,42 @@ def hasKept (ks : List Kept) (c : Nat) : Bool := ks.any (fun k => k.code == c)
 
 def findKept (ks : List Kept) (c : Nat) : Option Kept := ks.find? (fun k => k.code == c)
 
+/-- `ASPath._unpack_segments_static` as a parser (the acceptance test is `exaSegs`): the segments, a count of 0
+    included unless `seg0`. -/
+def exaParseSegs (seg0 : Bool) (w4 : Bool) : Nat → Bytes → Option (List Seg)
+  | _, [] => some []
+  | 0, _ :: _ => none
+  | _ + 1, [_] => none
+  | f + 1, t :: c :: r =>
+    if t = 0 ∨ t > 4 then none
+    else if c = 0 ∧ seg0 = true then none
+    else match decAsns w4 c r with
+      | none => none
+      | some (as, rest) =>
+        match exaParseSegs seg0 w4 f rest with
+        | none => none
+        | some ss => some ((t, as) :: ss)
+
+/-- `count(path)` of `merge_attributes`: an AS_SEQUENCE counts its AS numbers, an AS_SET one, a confederation
+    segment none. -/
+def countExa : List Seg → Nat
+  | [] => 0
+  | s :: t => (if s.1 = 2 then s.2.length else if s.1 = 1 then 1 else 0) + countExa t
+
+/-- the `for seg in as2path.aspath` loop of `merge_attributes`: the leading part that counts for `keep` -/
+def keepExa : Nat → List Seg → List Seg
+  | _, [] => []
+  | keep, s :: t =>
+    if s.1 = 2 then
+      (if s.2.length ≤ keep then s :: keepExa (keep - s.2.length) t
+       else if keep ≠ 0 then [(2, s.2.take keep)] else [])
+    else if s.1 = 1 then (if keep = 0 then [] else s :: keepExa (keep - 1) t)
+    else s :: keepExa keep t
+
+/-- `merge_attributes` on segments (commit 72add9c). -/
+def mergeExa (as2 as4 : List Seg) : List Seg :=
+  if countExa as2 < countExa as4 then as2 else keepExa (countExa as2 - countExa as4) as2 ++ as4
+
 /-- `merge_aggregator` (2-octet session, 18edd12): AS4_AGGREGATOR leaves the collection; it becomes the value of
     AGGREGATOR when that carries AS_TRANS; when AGGREGATOR carries another AS, AS4_PATH is void as well;
     without AGGREGATOR nothing else happens. -/
@@ -340,14 +378,16 @@ def mergeAggregator (ks : List Kept) : List Kept :=
     | none => ks.filter (fun k => k.code != 18)
     | some k7 =>
       if rd16 k7.val == 23456 then
-        (ks.filter (fun k => k.code != 18)).map (fun k => if k.code == 7 then { k with val := k18.val } else k)
+        (ks.filter (fun k => k.code != 18)).map (fun k => if k.code == 7 then { k with val := k18.val, merged := true } else k)
       else ks.filter (fun k => k.code != 18 && k.code != 17)
 
 /-- `merge_attributes` as far as this model goes: AS_PATH and AS4_PATH are replaced by one merged AS_PATH,
     re-inserted at the end (its content: C02). -/
 def mergePath (ks : List Kept) : List Kept :=
   if hasKept ks 2 && hasKept ks 17 then
-    ks.filter (fun k => k.code != 2 && k.code != 17) ++ [{ code := 2, flag := 64, val := [], merged := true }]
+    ks.filter (fun k => k.code != 2 && k.code != 17) ++
+      [{ code := 2, flag := 64, val := ((findKept ks 2).map (·.val)).getD [],
+         merged := true, as4 := ((findKept ks 17).map (·.val)).getD [] }]
   else ks
 
 /-- `AttributeCollection.unpack` after the loop: nothing more on treat-as-withdraw; on a 4-octet session
